@@ -175,8 +175,9 @@ Theorem C02_alias_resolution_sound_partial : forall fs ks, DataDecl.xform_data_d
             (flat_map (fun f => match f with DataDecl.TyAlias n _ => [n] | _ => [] end) fs) ks.
 Proof. exact DataDeclProofs.xform_data_decl_sound. Qed.
 
-(* ... and on a library whose type names are unique and in which no simple / enumeration / structure type is declared after it
-   was used as a base (what the declaration sort establishes; checked on every sorted stream of the correspondence) the resolution is exact: no error is raised, and an alias is given kind k exactly when a path of alias
+(* ... and on a library whose simple / enumeration / structure / alias declarations have unique names (declarations the transformation does not
+   enter may repeat one: a later stage reports that) and in which no simple / enumeration / structure type is declared after
+   it was used as a base (what the declaration sort establishes; checked on every sorted stream of the correspondence) the resolution is exact: no error is raised, and an alias is given kind k exactly when a path of alias
    declarations connects it to a declaration of kind k. *)
 Theorem C02_alias_resolution_exact : forall fs s n k, DataDeclComplete.wf fs -> DataDecl.dwalk DataDecl.dinit0 fs = inl s ->
   (DataDecl.alias_kind (DataDecl.resolved s) n = Some k <->
